@@ -415,23 +415,23 @@ variable {α : Type} [Inhabited α]
 
 theorem ssorted_nil (rank : α → α → Rank) : SSorted rank ([] : List α) := List.Pairwise.nil
 
-/-- result of the `And` loop -/
-theorem andLoop_spec (rank : α → α → Rank) (h : TotalPreorder rank) (second : List α)
-    (hsec : SSorted rank second) :
+/-- result of the `And` loop; `rank2` is the second operand's own collator -/
+theorem andLoop_spec (rank rank2 : α → α → Rank) (h : TotalPreorder rank) (h2 : TotalPreorder rank2)
+    (second : List α) (hsec : SSorted rank2 second) :
     ∀ (vs result : List α), SSorted rank result →
-      ∃ r, andLoop rank rank second result vs = some (.ok r) ∧ SSorted rank r ∧
-        (∀ x ∈ r, x ∈ result ∨ (x ∈ vs ∧ mem rank second x = true)) ∧
+      ∃ r, andLoop rank rank2 second result vs = some (.ok r) ∧ SSorted rank r ∧
+        (∀ x ∈ r, x ∈ result ∨ (x ∈ vs ∧ mem rank2 second x = true)) ∧
         (∀ x ∈ result, x ∈ r) ∧
-        (∀ x ∈ vs, mem rank second x = true → mem rank r x = true)
+        (∀ x ∈ vs, mem rank2 second x = true → mem rank r x = true)
   | [], result, hs => ⟨result, rfl, hs, fun x hx => Or.inl hx, fun x hx => hx, by simp⟩
   | v :: vs, result, hs => by
-    simp only [andLoop, containsValue_spec rank h second v hsec, bindR]
-    cases hm : mem rank second v with
+    simp only [andLoop, containsValue_spec rank2 h2 second v hsec, bindR]
+    cases hm : mem rank2 second v with
     | false =>
-      obtain ⟨r, hr, h1, h2, h3, h4⟩ := andLoop_spec rank h second hsec vs result hs
+      obtain ⟨r, hr, h1, h2', h3, h4⟩ := andLoop_spec rank rank2 h h2 second hsec vs result hs
       refine ⟨r, by simpa using hr, h1, ?_, h3, ?_⟩
       · intro x hx
-        rcases h2 x hx with hx | ⟨hx, hb⟩
+        rcases h2' x hx with hx | ⟨hx, hb⟩
         · exact Or.inl hx
         · exact Or.inr ⟨by simp [hx], hb⟩
       · intro x hx hb
@@ -440,10 +440,10 @@ theorem andLoop_spec (rank : α → α → Rank) (h : TotalPreorder rank) (secon
         · exact h4 x hx hb
     | true =>
       obtain ⟨l', ha, hs', hc⟩ := addValue_cases rank h result v hs
-      obtain ⟨r, hr, h1, h2, h3, h4⟩ := andLoop_spec rank h second hsec vs l' hs'
+      obtain ⟨r, hr, h1, h2', h3, h4⟩ := andLoop_spec rank rank2 h h2 second hsec vs l' hs'
       refine ⟨r, by simp [ha, bindR, hr], h1, ?_, ?_, ?_⟩
       · intro x hx
-        rcases h2 x hx with hx | ⟨hx, hb⟩
+        rcases h2' x hx with hx | ⟨hx, hb⟩
         · rcases hc with ⟨_, rfl⟩ | ⟨_, hp⟩
           · exact Or.inl hx
           · rcases List.mem_cons.mp (hp.mem_iff.mp hx) with rfl | hx
@@ -462,13 +462,14 @@ theorem andLoop_spec (rank : α → α → Rank) (h : TotalPreorder rank) (secon
           · exact mem_iff.mpr ⟨x, h3 x (hp.mem_iff.mpr (by simp)), h.refl x⟩
         · exact h4 x hx hb
 
-theorem setAnd_spec (rank : α → α → Rank) (h : TotalPreorder rank) (a b : List α) (hb : SSorted rank b) :
-    ∃ r, setAnd rank rank a b = some (.ok r) ∧ SSorted rank r ∧
-      (∀ x ∈ r, x ∈ a ∧ mem rank b x = true) ∧ (∀ x ∈ a, mem rank b x = true → mem rank r x = true) := by
-  obtain ⟨r, hr, h1, h2, _, h4⟩ := andLoop_spec rank h b hb a [] (ssorted_nil rank)
+theorem setAnd_spec (rank rank2 : α → α → Rank) (h : TotalPreorder rank) (h2 : TotalPreorder rank2)
+    (a b : List α) (hb : SSorted rank2 b) :
+    ∃ r, setAnd rank rank2 a b = some (.ok r) ∧ SSorted rank r ∧
+      (∀ x ∈ r, x ∈ a ∧ mem rank2 b x = true) ∧ (∀ x ∈ a, mem rank2 b x = true → mem rank r x = true) := by
+  obtain ⟨r, hr, h1, h2', _, h4⟩ := andLoop_spec rank rank2 h h2 b hb a [] (ssorted_nil rank)
   refine ⟨r, hr, h1, ?_, h4⟩
   intro x hx
-  rcases h2 x hx with hx | hx
+  rcases h2' x hx with hx | hx
   · simp at hx
   · exact hx
 
@@ -519,13 +520,16 @@ theorem setSans_spec (rank : α → α → Rank) (h : TotalPreorder rank) (a b :
     | lt => simp
     | gt => simp
 
-theorem setXor_spec (rank : α → α → Rank) (h : TotalPreorder rank) (a b : List α) :
-    ∃ r, setXor rank a b = some (.ok r) ∧ SSorted rank r ∧
-      (∀ x ∈ r, (x ∈ a ∧ mem rank b x = false) ∨ (x ∈ b ∧ mem rank a x = false)) ∧
+/-- `Xor`; the second operand's collator `rank2` must not separate values the first one's
+    ranks equal (e.g. the same collator, or the reversed one) -/
+theorem setXor_spec (rank rank2 : α → α → Rank) (h : TotalPreorder rank) (h2 : TotalPreorder rank2)
+    (hcompat : ∀ x y, rank2 x y = .eq → rank x y = .eq) (a b : List α) :
+    ∃ r, setXor rank rank2 a b = some (.ok r) ∧ SSorted rank r ∧
+      (∀ x ∈ r, (x ∈ a ∧ mem rank b x = false) ∨ (x ∈ b ∧ mem rank2 a x = false)) ∧
       (∀ x ∈ a, mem rank b x = false → mem rank r x = true) ∧
-      (∀ x ∈ b, mem rank a x = false → mem rank r x = true) := by
+      (∀ x ∈ b, mem rank2 a x = false → mem rank r x = true) := by
   obtain ⟨x1, hx1, s1, a1, c1⟩ := setSans_spec rank h a b
-  obtain ⟨x2, hx2, s2, a2, c2⟩ := setSans_spec rank h b a
+  obtain ⟨x2, hx2, s2, a2, c2⟩ := setSans_spec rank2 h2 b a
   obtain ⟨r, hr, s3, a3, c3⟩ := setOr_spec rank h x1 x2
   refine ⟨r, by simp [setXor, hx1, hx2, bindR, hr], s3, ?_, ?_, ?_⟩
   · intro x hx
@@ -539,7 +543,7 @@ theorem setXor_spec (rank : α → α → Rank) (h : TotalPreorder rank) (a b : 
   · intro x hx hna
     obtain ⟨y, hy, he⟩ := mem_iff.mp (c2 x hx hna)
     obtain ⟨z, hz, he2⟩ := mem_iff.mp (c3 y (List.mem_append.mpr (Or.inr hy)))
-    exact mem_iff.mpr ⟨z, hz, tp_eq_trans h x y z he he2⟩
+    exact mem_iff.mpr ⟨z, hz, tp_eq_trans h x y z (hcompat x y he) he2⟩
 
 end SetM
 end CM
